@@ -111,6 +111,12 @@ def sim_case(draw, schedulers, tier="quick", max_pipes=12, single_seg=False, for
     params.update(force.get("params", {}))
     solo = sched == "priority-pool" and not multi and draw(st.booleans())
     npipes = draw(st.sampled_from([3, 5, 2, 8] + list(range(1, max_pipes + 1)) * 2 + [0]))
+    heavy = draw(st.integers(0, 2)) == 0
+    if heavy:
+        # loaded pools: many pipelines in a burst, so that retries and late arrivals meet partially used pools
+        npipes = draw(st.integers(8, 24))
+        params["cpus_per_pool"] = draw(st.sampled_from([6, 5, 8, 10, 4, 16, 7]))
+        params["ram_gb_per_pool"] = draw(st.sampled_from([100, 30, 64, 20, 256]))
     arrivals = []
     burst_tick = draw(st.integers(0, max(nticks, 1)))
     for _ in range(npipes):
